@@ -258,18 +258,21 @@ def substore_context(ctx):
                      f"response(s) sent on {[a for a, _ in sent]}", case)
 
 
-def msgid_e2e(_=None):
+def msgid_e2e(contextvars=False):
     """real provider, real wire: requests with the boundary message ids 0, 1 and 65535 (all legal) over loopback; each
     must come back with its Pending responses and one final response carrying that id"""
     from pydicom.dataset import Dataset
     from pynetdicom import AE, evt
+    from pynetdicom import _config
     from pynetdicom.sop_class import (
-        CTImageStorage, DisplaySystem, PatientRootQueryRetrieveInformationModelFind as F, Verification,
+        CTImageStorage, DisplaySystem, PatientRootQueryRetrieveInformationModelFind as F, PrintJob, Verification,
     )
 
     from harness import e2e
 
     e2e.quiet()
+    # the documented option that makes every thread pynetdicom starts carry the caller's context variables
+    _config.PASS_CONTEXTVARS = bool(contextvars)
 
     def h_find(event):
         for i in range(2):
@@ -283,16 +286,17 @@ def msgid_e2e(_=None):
         return 0x0000, ds
 
     ae = AE()
-    for cx in (Verification, CTImageStorage, F, DisplaySystem):
+    for cx in (Verification, CTImageStorage, F, DisplaySystem, PrintJob):
         ae.add_supported_context(cx)
     ae.acse_timeout = ae.dimse_timeout = ae.network_timeout = 10
     seen = []
     srv = ae.start_server(("127.0.0.1", 0), block=False, evt_handlers=[
-        (evt.EVT_C_ECHO, lambda e: 0x0000), (evt.EVT_C_STORE, lambda e: 0x0000), (evt.EVT_C_FIND, h_find), (evt.EVT_N_GET, h_nget)])
+        (evt.EVT_C_ECHO, lambda e: 0x0000), (evt.EVT_C_STORE, lambda e: 0x0000), (evt.EVT_C_FIND, h_find), (evt.EVT_N_GET, h_nget),
+        (evt.EVT_N_EVENT_REPORT, lambda e: (0x0000, Dataset()))])
     out = []
     try:
         cl = AE()
-        for cx in (Verification, CTImageStorage, F, DisplaySystem):
+        for cx in (Verification, CTImageStorage, F, DisplaySystem, PrintJob):
             cl.add_requested_context(cx)
         cl.acse_timeout, cl.network_timeout, cl.dimse_timeout = 10, 10, 1.5
         a = cl.associate("127.0.0.1", srv.socket.getsockname()[1],
@@ -322,7 +326,12 @@ def msgid_e2e(_=None):
             if a.is_established:
                 st, _ = a.send_n_get([0x00100010], DisplaySystem, "1.2.840.10008.5.1.1.40.1", msg_id=mid)
                 r["nget"] = getattr(st, "Status", None) if st else None
+            if a.is_established:
+                # (served by the acceptor from a thread of its own, started by the DIMSE provider)
+                st, _ = a.send_n_event_report(Dataset(), 1, PrintJob, "1.2.3", msg_id=mid)
+                r["nevent"] = getattr(st, "Status", None) if st else None
             r["received"] = list(seen)
+            r["contextvars"] = bool(contextvars)
             out.append(r)
         if a.is_established:
             a.release()
@@ -336,21 +345,22 @@ def msgid_check(ctx):
 
     pool = mp.get_context("fork").Pool(processes=1, maxtasksperchild=1, initializer=_e2e_exit.no_join_at_exit)
     try:
-        res = pool.apply(msgid_e2e)
+        res = pool.apply(msgid_e2e, (False,))
+        res += pool.apply(msgid_e2e, (True,))
     finally:
         pool.terminate()
         pool.join()
     for r in res:
-        case = ["msgid-e2e", r.get("msg_id")]
-        ctx.case(case, nontrivial=True, kind="msgid-e2e")
+        case = ["msgid-e2e", r.get("msg_id")] + (["PASS_CONTEXTVARS"] if r.get("contextvars") else [])
+        ctx.case(case, nontrivial=True, kind="msgid-e2e" + (":contextvars" if r.get("contextvars") else ""))
         if "error" in r:
             ctx.fail("e2e:association-lost-on-boundary-message-id", f"message id {r.get('msg_id')}: {r['error']}", case)
             continue
         mid = r["msg_id"]
         bad_msgs = [m for m in r["received"] if not m[0].endswith("_RSP") or m[1] != mid]
-        if r["echo"] != 0 or r["find"] != [0xFF00, 0xFF00, 0x0000] or r["store"] != 0 or r.get("nget") != 0 or bad_msgs:
-            ctx.fail("e2e:responses-for-boundary-message-id",
-                     f"requests with message id {mid}: C-ECHO status {r['echo']}, C-FIND statuses {r['find']}, C-STORE {r['store']}, N-GET {r.get('nget')}; "
+        if r["echo"] != 0 or r["find"] != [0xFF00, 0xFF00, 0x0000] or r["store"] != 0 or r.get("nget") != 0 or r.get("nevent") != 0 or bad_msgs:
+            ctx.fail("e2e:responses-for-boundary-message-id" + (":contextvars" if r.get("contextvars") else ""),
+                     f"requests with message id {mid}{' (PASS_CONTEXTVARS on)' if r.get('contextvars') else ''}: C-ECHO status {r['echo']}, C-FIND statuses {r['find']}, C-STORE {r['store']}, N-GET {r.get('nget')}, N-EVENT-REPORT {r.get('nevent')}; "
                      f"messages received by the requestor that are not responses to id {mid}: {bad_msgs[:6]}", case)
 
 
